@@ -12,6 +12,7 @@
 //
 //   sd <w> <tok> <tok> ...      tok: A (acceptor) | W<j> (worker j) | S (caller of shutdown) | c<j> (a client connects; the
 //                                    connection will be dispatched to worker j: descriptor numbers are steered so that fd % w = j)
+//                                    | F (acceptor step during which accept4 fails with EMFILE, as with a full descriptor table)
 #include "common.h"
 #include <pistache/listener.h>
 #include <pistache/tcp.h>
@@ -20,6 +21,7 @@
 #include <sys/epoll.h>
 #include <sys/eventfd.h>
 #include <sys/syscall.h>
+#include <sys/resource.h>
 #include <sys/socket.h>
 #include <netinet/in.h>
 #include <arpa/inet.h>
@@ -46,6 +48,7 @@ bool g_free = false;           // every gate is open: the threads run as they wo
 std::vector<std::unique_ptr<Act>> g_acts;     // 0 = acceptor, 1 + j = worker j
 Act g_caller;
 thread_local bool tl_isCaller = false;
+std::atomic<bool> g_failAccept { false };   // token F: the acceptor's accept4 fails with EMFILE
 
 Act* findAct(int epfd)
 {
@@ -111,6 +114,12 @@ extern "C" int epoll_wait(int epfd, epoll_event* evs, int maxev, int timeout)
         a->go = false; a->state = Running;
         return n;
     }
+}
+
+extern "C" int accept4(int fd, sockaddr* addr, socklen_t* len, int flags)
+{
+    if (g_failAccept) { errno = EMFILE; return -1; }
+    return static_cast<int>(syscall(SYS_accept4, fd, addr, len, flags));
 }
 
 extern "C" int eventfd_write(int fd, eventfd_t value)
@@ -199,7 +208,14 @@ std::string opSd(const std::vector<std::string>& w)
     for (size_t i = 2; i < w.size() && !bad; ++i) {
         const std::string& t = w[i];
         std::string lab;
-        if (t == "A") {
+        if (t == "F") {
+            // accept4 fails with EMFILE while the acceptor handles its batch (interposed, as if the descriptor table were full): the
+            // connection stays in the backlog
+            Act* a = g_acts[0].get();
+            g_failAccept = true;
+            lab = stepAct(a);
+            g_failAccept = false;
+        } else if (t == "A") {
             Act* a = g_acts[0].get();
             bool atWoke; { std::unique_lock<std::mutex> lk(g_m); atWoke = a->state == AtWoke; }
             if (atWoke && !pendingTargets.empty()) {
@@ -255,16 +271,25 @@ std::string opSd(const std::vector<std::string>& w)
         g_cv.notify_all();
     }
     std::atomic<bool> finished { false };
+    std::string alive;
     std::thread finisher([&] {
         if (!callerSpawned) listener->shutdown();
         if (callerThread.joinable()) callerThread.join();
+        // shutdown() has returned: every framework thread must end now, BEFORE the listener is destroyed (its destructor calls
+        // shutdown() once more, which would hide a wake-up lost by the first call)
+        {
+            std::unique_lock<std::mutex> lk(g_m);
+            g_cv.wait_for(lk, std::chrono::milliseconds(1500), [&] { for (auto& a : g_acts) if (a->state != Exited) return false; return true; });
+            for (size_t i = 0; i < g_acts.size(); ++i)
+                if (g_acts[i]->state != Exited) alive += (alive.empty() ? "" : ",") + (i == 0 ? std::string("A") : "W" + std::to_string(i - 1));
+        }
         listener.reset();            // ~Listener joins the acceptor, ~Reactor joins the workers
         finished = true;
     });
-    for (int i = 0; i < 500 && !finished; ++i) std::this_thread::sleep_for(std::chrono::milliseconds(10));
+    for (int i = 0; i < 700 && !finished; ++i) std::this_thread::sleep_for(std::chrono::milliseconds(10));
     if (!finished) {
         // threads that cannot end cannot be cleaned up either: report and leave (the line after this one restarts the driver)
-        fprintf(stderr, "sd: threads still alive 5 s after shutdown(): trace %s\n", trace.c_str());
+        fprintf(stderr, "sd: threads still alive 7 s after shutdown(): trace %s\n", trace.c_str());
         _exit(98);
     }
     finisher.join();
@@ -275,7 +300,7 @@ std::string opSd(const std::vector<std::string>& w)
         g_gating = false;
     }
     if (bad) return "bad-op";
-    return trace + "final=clean";
+    return trace + (alive.empty() ? "final=clean" : "final=alive:" + alive);
 }
 
 } // namespace
